@@ -46,27 +46,36 @@ def worker(args):
     exe, cfg, batch = args
     results, daemons = [], []
     bus = None
+    nbad = 0
     try:
         for idx, s, line in batch:
+            if nbad >= 6:
+                break            # a daemon this broken needs no more evidence; every missing effect costs a 5 s wait
             attempts = 3 if s["cfg"]["auth_timeout"] < 60000 else 1
             res = None
             for attempt in range(attempts):
-                if bus is None:
-                    bus = rr.Bus(exe, cfg)
                 try:
+                    if bus is None:
+                        bus = rr.Bus(exe, cfg)
                     res = rr.run_script(bus, parse_events(s["events"]), rr.parse_groups(line), [bytes.fromhex(c) for c in s["canaries"]])
                 except Exception:
                     res = {"problems": [("violation", "executor exception (bus unusable?): " + traceback.format_exc()[-600:])], "observed": [], "stats": {}}
                 res["attempts"] = attempt + 1
                 if res["problems"]:
-                    alive, rc, bad, err = bus.stop()
-                    daemons.append({"alive": alive, "rc": rc, "san": bad[:20], "tail": err[-1500:] if (bad or not alive or rc != 0) else "", "after": idx})
+                    if bus is not None:
+                        try:
+                            alive, rc, bad, err = bus.stop()
+                        except Exception:
+                            alive, rc, bad, err = False, None, [], traceback.format_exc()[-800:]
+                        daemons.append({"alive": alive, "rc": rc, "san": bad[:20], "tail": err[-1500:] if (bad or not alive or rc != 0) else "", "after": idx})
                     bus = None
                     # only pure timing mismatches are worth another attempt
                     if all(k == "mismatch" for k, _ in res["problems"]) and attempt + 1 < attempts:
                         continue
                 break
             results.append((idx, res))
+            if any(k == "violation" for k, _ in res["problems"]):
+                nbad += 1
     finally:
         if bus is not None:
             lat = bus.lat
